@@ -23,6 +23,7 @@ type OblResult struct {
 	Status string // discharged | refuted | undecided | cover-ok | cover-fail
 	Script string
 	LinScript string
+	SplitScripts []string
 }
 
 type FuncResult struct {
@@ -93,8 +94,56 @@ func bitsOf2(pc *PkgContracts) map[string]int {
 }
 
 func solveAll(results []*OblResult, timeoutS int, workers int, order []int) {
+	// expand multi-part obligations into per-part work items
+	var work []*OblResult
+	partsOf := map[*OblResult][]*OblResult{}
+	for _, r := range results {
+		if len(r.Obl.Parts) == 0 {
+			work = append(work, r)
+			continue
+		}
+		for _, pt := range r.Obl.Parts {
+			pr := &OblResult{Obl: pt, Ex: r.Ex}
+			partsOf[r] = append(partsOf[r], pr)
+			work = append(work, pr)
+		}
+	}
+	defer func() {
+		for r, prs := range partsOf {
+			agg := &SolveResult{Status: "unsat"}
+			r.Status = "discharged"
+			for _, pr := range prs {
+				agg.Time += pr.Res.Time
+				agg.Tried = append(agg.Tried, pr.Res.Tried...)
+				if agg.Solver == "" {
+					agg.Solver = pr.Res.Solver
+				}
+				if pr.Status != "discharged" && r.Status == "discharged" {
+					// the first failing part decides, and carries the model for replay
+					r.Status = pr.Status
+					agg.Status = pr.Res.Status
+					agg.Output = pr.Res.Output
+					agg.Solver = pr.Res.Solver
+					r.Script = pr.Script
+					r.Obl = pr.Obl
+				}
+			}
+			if r.Script == "" && len(prs) > 0 {
+				r.Script = prs[0].Script
+			}
+			r.Res = agg
+		}
+	}()
+	results = work
 	for _, r := range results {
 		r.Script = r.Ex.buildQuery(r.Obl, nil)
+		if !r.Obl.ExpectSat && r.Obl.Guard.Kind == smt.KApp && r.Obl.Guard.Op == "or" && len(r.Obl.Guard.Args) <= 24 && len(r.Script) > 20000 {
+			for _, d := range r.Obl.Guard.Args {
+				o2 := *r.Obl
+				o2.Guard = d
+				r.SplitScripts = append(r.SplitScripts, r.Ex.buildQuery(&o2, nil))
+			}
+		}
 		if !r.Obl.ExpectSat && strings.Contains(r.Script, "(* ") || strings.Contains(r.Script, "(div ") || strings.Contains(r.Script, "(mod ") {
 			seen := map[int]bool{}
 			nl := smt.HasNonlinear(r.Obl.Goal, seen) || smt.HasNonlinear(r.Obl.Guard, seen)
@@ -122,6 +171,27 @@ func solveAll(results []*OblResult, timeoutS int, workers int, order []int) {
 					r.Res = Solve2(r.Script, r.LinScript, timeoutS, order)
 					if r.Res.Linearized {
 						r.Script = r.LinScript
+					}
+					if r.Res.Status != "unsat" && r.Res.Status != "sat" && len(r.SplitScripts) > 1 {
+						// case split on the disjuncts of the path condition (each case is a smaller query)
+						all := true
+						tot := r.Res.Time
+						tried := append([]string{}, r.Res.Tried...)
+						for _, sc := range r.SplitScripts {
+							pr := Solve2(sc, "", timeoutS, order)
+							tot += pr.Time
+							tried = append(tried, "split:"+strings.Join(pr.Tried, ","))
+							if pr.Status != "unsat" {
+								all = false
+								if os.Getenv("GOVC_DEBUG") != "" {
+									os.WriteFile("/tmp/govc_split_fail.smt2", []byte(sc), 0o644)
+								}
+								break
+							}
+						}
+						if all {
+							r.Res = &SolveResult{Status: "unsat", Solver: "split(" + fmt.Sprint(len(r.SplitScripts)) + ")", Time: tot, Tried: tried}
+						}
 					}
 				}
 				switch {
@@ -205,6 +275,10 @@ func cmdVerify(args []string) {
 		if *dump != "" && regexp.MustCompile(*dump).MatchString(r.Obl.Name) {
 			fmt.Println(r.Script)
 			fmt.Println(r.Res.Output)
+			if r.Res.Status == "sat" {
+				st, out, _ := runSolver(solvers[1], strings.Replace(r.Script, "(check-sat)", "(check-sat)\n(get-model)", 1), 10)
+				fmt.Println(st, out)
+			}
 		}
 	}
 	if *showAssume {
